@@ -21,6 +21,8 @@ pub enum Step {
     Drop { h: usize },
     Save { h: usize, light: bool },
     Reload { h: usize, lazy: bool },
+    /// clone worksheet `sheet` of handle `from` and add it to handle `h` under `name`
+    CopySheet { h: usize, from: usize, sheet: usize, name: String },
 }
 
 fn tags_in(s: &str, out: &mut BTreeSet<String>) {
@@ -96,7 +98,43 @@ fn visible_tags(book: &umya::Spreadsheet, twin: Option<&umya::Spreadsheet>) -> (
 /// Tags of the text an operation is meant to delete, read through the getters before it runs. Only the
 /// unambiguous part of the semantics is used: overwriting a cell, removing a cell, a band of rows or
 /// columns, or a sheet deletes the text of the cells it targets.
-fn doomed_tags(b: &umya::Spreadsheet, op: &Op) -> BTreeSet<String> {
+fn doomed_tags(b: &umya::Spreadsheet, twin: Option<&umya::Spreadsheet>, op: &Op) -> BTreeSet<String> {
+    let mut out = doomed_in_sheet(b, op);
+    if out.is_empty() {
+        return out;
+    }
+    // a tag that also lives in another sheet of the workbook (a copied sheet, a raw sheet) is not doomed
+    let n = b.get_sheet_count();
+    let target = match crate::c12::op_sheet_index(op) {
+        Some(s) => s % n.max(1),
+        None => usize::MAX,
+    };
+    let mut elsewhere = BTreeSet::new();
+    for (i, ws) in b.get_sheet_collection_no_check().iter().enumerate() {
+        if i == target {
+            continue;
+        }
+        if umya::verif_hooks::is_deserialized(ws) {
+            sheet_tags(ws, &mut elsewhere);
+        } else if let Some(tw) = twin.and_then(|t| t.get_sheet_collection_no_check().iter().find(|x| x.get_name() == ws.get_name())) {
+            sheet_tags(tw, &mut elsewhere);
+        } else {
+            // a raw sheet we cannot look into: be conservative, nothing is doomed
+            return BTreeSet::new();
+        }
+    }
+    out.retain(|t| !elsewhere.contains(t));
+    out
+}
+
+pub fn op_sheet_index(op: &Op) -> Option<usize> {
+    match op {
+        Op::SetText { sheet, .. } | Op::SetRich { sheet, .. } | Op::SetNum { sheet, .. } | Op::SetBool { sheet, .. } | Op::SetBlank { sheet, .. } | Op::RemoveCell { sheet, .. } | Op::SheetRemoveRow { sheet, .. } | Op::SheetRemoveCol { sheet, .. } | Op::RemoveSheet { sheet } | Op::EditComment { sheet, .. } => Some(*sheet),
+        _ => None,
+    }
+}
+
+fn doomed_in_sheet(b: &umya::Spreadsheet, op: &Op) -> BTreeSet<String> {
     let mut out = BTreeSet::new();
     let n = b.get_sheet_count();
     if n == 0 {
@@ -205,7 +243,7 @@ pub fn execute(case: &Value, _scratch: &str) -> Outcome {
                         // what the operation is meant to delete, read from the getters before it runs
                         // (only where the sheet is already materialised: a raw sheet is judged by the
                         // file-vs-getters oracle alone)
-                        let doomed = doomed_tags(b, op);
+                        let doomed = doomed_tags(b, twins[hi].as_ref(), op);
                         world::apply(b, op);
                         deleted[hi].extend(doomed);
                         sig.push('o');
@@ -226,6 +264,34 @@ pub fn execute(case: &Value, _scratch: &str) -> Outcome {
                             parent.push(Some(*h % n));
                             clones_alive += 1;
                             sig.push('c');
+                        }
+                    }
+                }
+                Step::CopySheet { h, from, sheet, name } => {
+                    let n = handles.len();
+                    let (hi, fi) = (*h % n, *from % n);
+                    let src_ws = handles[fi].as_ref().and_then(|b| {
+                        let cnt = b.get_sheet_count();
+                        if cnt == 0 {
+                            return None;
+                        }
+                        let ws = &b.get_sheet_collection_no_check()[*sheet % cnt];
+                        if umya::verif_hooks::is_deserialized(ws) {
+                            Some(ws.clone())
+                        } else {
+                            None
+                        }
+                    });
+                    if let (Some(mut ws), Some(b)) = (src_ws, handles[hi].as_mut()) {
+                        ws.set_name(name.clone());
+                        // text that comes (back) with the copied sheet is legitimately part of this workbook
+                        let mut arriving = BTreeSet::new();
+                        sheet_tags(&ws, &mut arriving);
+                        if b.add_sheet(ws).is_ok() {
+                            sig.push('y');
+                            for t in &arriving {
+                                deleted[hi].remove(t);
+                            }
                         }
                     }
                 }
@@ -394,7 +460,7 @@ pub fn cases(run_seed: u64, tier: &str, _scratch: &str) -> Vec<Value> {
         let alpha = sw.usize(4);
         let len = 3 + wl.usize(if sw.chance(1, 4) { 38 } else { 12 });
         // weights: edit, remove, clone, drop, save, reload
-        let w = [10 + sw.below(10) as u32, 2 + sw.below(6) as u32, sw.below(4) as u32, sw.below(2) as u32, 3 + sw.below(5) as u32, sw.below(3) as u32];
+        let w = [10 + sw.below(10) as u32, 2 + sw.below(6) as u32, sw.below(4) as u32, sw.below(3) as u32, 3 + sw.below(5) as u32, sw.below(3) as u32];
         let mut nh = 1usize;
         let mut steps = Vec::new();
         if sw.chance(1, 5) {
@@ -441,6 +507,7 @@ pub fn cases(run_seed: u64, tier: &str, _scratch: &str) -> Vec<Value> {
                     }
                     Step::Clone { h }
                 }
+                3 if wl.chance(1, 2) => Step::CopySheet { h, from: wl.usize(nh), sheet: wl.usize(sheets), name: format!("Copy{}", k) },
                 3 => Step::Drop { h },
                 4 => Step::Save { h, light: wl.chance(1, 4) },
                 _ => {
